@@ -259,42 +259,51 @@ func runC12(a *Analyzer, r *Results) {
 			}
 		}
 		n := 0
-		for _, b := range fn.Blocks {
-			for _, in := range b.Instrs {
-				ci, ok := in.(ssa.CallInstruction)
-				if !ok || isLoggingCall(ci.Common()) {
-					continue
-				}
-				if _, isB := ci.Common().Value.(*ssa.Builtin); isB {
-					continue
-				}
-				dep := false
-				for _, arg := range ci.Common().Args {
-					if strings.Contains(c.Term(arg).Key(), cache.Key()) && c.Term(arg).Op != "field" {
-						dep = true
+		for _, part := range drainParts(a, fn, c) {
+			fn, c := part.fn, part.c
+			if has, _ := recoverBoundary(fn); has && part.site != nil {
+				continue // calls made inside a recovering helper are protected by it
+			}
+			for _, b := range fn.Blocks {
+				for _, in := range b.Instrs {
+					ci, ok := in.(ssa.CallInstruction)
+					if !ok || isLoggingCall(ci.Common()) {
+						continue
 					}
-				}
-				if !dep {
-					continue
-				}
-				n++
-				var callees []*ssa.Function
-				if nd := a.P.CHA().Nodes[fn]; nd != nil {
-					for _, e := range nd.Out {
-						if e.Site == ci {
-							callees = append(callees, e.Callee.Func)
+					if _, isB := ci.Common().Value.(*ssa.Builtin); isB {
+						continue
+					}
+					dep := false
+					for _, arg := range ci.Common().Args {
+						if strings.Contains(c.Term(arg).Key(), cache.Key()) && c.Term(arg).Op != "field" {
+							dep = true
 						}
 					}
+					if !dep {
+						continue
+					}
+					n++
+					var callees []*ssa.Function
+					if nd := a.P.CHA().Nodes[fn]; nd != nil {
+						for _, e := range nd.Out {
+							if e.Site == ci {
+								callees = append(callees, e.Callee.Func)
+							}
+						}
+					}
+					bad := a.unprotectedDecoders(callees)
+					why := ""
+					if len(bad) > 0 && exposed {
+						why = "the drain is reachable from an event loop arm without a recover boundary, and the replayed message reaches decoders unprotected: " + bad[0]
+					}
+					r.Check("R1.cache", pr, "cached (future-height) messages are untrusted bytes decoded lazily: their replay reaches decoders only through a recovering function, unless every way into the drain already passes one", "ConsumeCacheMessages|"+calleeLabel(ci.Common()), a.P.InstrPos(in), len(bad) == 0 || !exposed, why, "R")
 				}
-				bad := a.unprotectedDecoders(callees)
-				why := ""
-				if len(bad) > 0 && exposed {
-					why = "the drain is reachable from an event loop arm without a recover boundary, and the replayed message reaches decoders unprotected: " + bad[0]
-				}
-				r.Check("R1.cache", pr, "cached (future-height) messages are untrusted bytes decoded lazily: their replay reaches decoders only through a recovering function, unless every way into the drain already passes one", "ConsumeCacheMessages|"+calleeLabel(ci.Common()), a.P.InstrPos(in), len(bad) == 0 || !exposed, why, "R")
 			}
 		}
 		r.Stats["C12.cache_replay_calls"] = n
+		if n == 0 {
+			r.Undecided = append(r.Undecided, "R1.cache: no call in the drain passes a cached message on (anchor)")
+		}
 	}
 	// ---- R1 APIs
 	for _, id := range []string{"(*leanhelix.WorkerLoop).ValidateBlockConsensus", "(*leanhelix.MainLoop).ValidateBlockConsensus", "leanhelix.GetMemberIdsFromBlockProof"} {
@@ -360,13 +369,13 @@ func runC12(a *Analyzer, r *Results) {
 	// ---- R5 explicit panic inventory
 	{
 		allowed := map[string]string{
-			"services/interfaces.CreateConsensusRawMessage":                          "unreachable default of a type switch over the five message types built by the factory",
-			"services/termincommittee.panicOnLessThanMinimumCommitteeMembers":        "configuration error: committee below the hard minimum (consumer-supplied)",
+			"services/interfaces.CreateConsensusRawMessage":                            "unreachable default of a type switch over the five message types built by the factory",
+			"services/termincommittee.panicOnLessThanMinimumCommitteeMembers":          "configuration error: committee below the hard minimum (consumer-supplied)",
 			"(*services/leanhelixterm.ConsensusMessagesFilter).HandleConsensusMessage": "unreachable default: ToConsensusMessage yields only the five types, nil is filtered before",
-			"(*leanhelix.MainLoop).run":                                              "configuration error: no election trigger",
-			"(*leanhelix.MainLoop).sendElectionMessageNonBlocking":                   "configuration error: channel capacity is a literal >= 1 (checked by C14)",
-			"(*leanhelix.MainLoop).sendUpdateMessageNonBlocking":                     "configuration error: channel capacity is a literal >= 1 (checked by C14)",
-			"(*leanhelix.MainLoop).ValidateBlockConsensus":                           "API misuse: called before Run",
+			"(*leanhelix.MainLoop).run":                                                "configuration error: no election trigger",
+			"(*leanhelix.MainLoop).sendElectionMessageNonBlocking":                     "configuration error: channel capacity is a literal >= 1 (checked by C14)",
+			"(*leanhelix.MainLoop).sendUpdateMessageNonBlocking":                       "configuration error: channel capacity is a literal >= 1 (checked by C14)",
+			"(*leanhelix.MainLoop).ValidateBlockConsensus":                             "API misuse: called before Run",
 		}
 		n := 0
 		for _, f := range a.P.Funcs {
